@@ -269,6 +269,7 @@ class EncodeSparse(Sparse_):
             return self._enc.get(key,lambda x:x)(self._row[key])
         except KeyError:
             if key in self._nsp: return self._enc.get(key, lambda x:x)("0")
+            raise
 
     def __iter__(self) -> Iterator:
         return iter(self._row.keys() | self._nsp)
